@@ -430,6 +430,28 @@ def main():
     for l in vio_lines:
         print(l)
 
+    # source-tie coverage: how much of the functions this property's sites come from is regenerated
+    tie = {}
+    try:
+        cv_path = os.path.join(BUILD, "site_coverage.json")
+        cur = json.load(open(os.path.join(BUILD, "gen_status.json"))).get("repo_hash")
+        sys.path.insert(0, os.path.join(VERIF, "gen"))
+        import coverage as _cov
+        old = json.load(open(cv_path)) if os.path.exists(cv_path) else {}
+        if old.get("repo_hash") != cur or old.get("tool_hash") != _cov.tool_hash():
+            sh([sys.executable, os.path.join(VERIF, "gen", "coverage.py")], env=dict(os.environ, ELFIO_REPO=REPO))
+        cv = json.load(open(cv_path))
+        pre = tuple(getattr(fam, "SITES", []) or [""])
+        fs = [f for f in cv["functions"] if any(n.startswith(pre) for n in f.get("sites", []))]
+        tie = {"functions_with_regenerated_sites": len(fs),
+               "sites_used": sum(1 for f in fs for n in f["sites"] if n.startswith(pre)),
+               "decisions_in_those_functions": sum(f["decisions"] for f in fs),
+               "decisions_regenerated": sum(f["decisions_regenerated"] for f in fs),
+               "assignments_in_those_functions": sum(f["assignments"] for f in fs),
+               "assignments_regenerated": sum(f["assignments_regenerated"] for f in fs),
+               "note": "decisions/assignments not regenerated are hand-modelled (Model/*.lean) and tied to the code by the correspondence check only"}
+    except Exception as e:  # informational only
+        tie = {"error": str(e)[:200]}
     # 6. evidence
     samples = [{"id": c["id"], "lines": c["lines"][:12], "impl": (impl.get(c["id"]) or [])[:12]} for c in cases[:2] + cases[-2:]]
     ev = {
@@ -449,6 +471,7 @@ def main():
             "traces_validated_against_impl": sum(1 for c in cases if c["id"] in impl and c["id"] in model),
             "correspondence_differences": len(diffs),
             "distribution": dist,
+            "source_tie": tie,
             "gen_sites": {k: v for k, v in gstat.items() if any(k.startswith(p) for p in getattr(fam, "SITES", []))},
             "known_findings_confirmed": sorted(known_hit),
             "problems": [f"{k}: {m}" for k, m in problems][:20],
